@@ -31,6 +31,7 @@ d = put(d, "seeded6", "f")
 d = put(d, "seeded7", "g")
 d = put(d, "seeded8", "h")
 d = put(d, "seeded9", "i")
+d = put(d, "seeded10", "j")
 t2 = ["| seeded change | needs to manifest | caught by (final) | first version of the check |", "|---|---|---|---|"] + seeded_rows("b")
 block = "<!-- seeded2:begin -->\n" + "\n".join(t2) + "\n<!-- seeded2:end -->"
 if "<!-- seeded2:begin -->" in d:
